@@ -73,14 +73,14 @@ func vpCheckFilterStore(fs *filterHeaderStore, model []chainhash.Hash, blocks []
 func VerifH_C07_filterOps() {
 	vpResetEnv()
 	db := vpReadyDB()
+	w := &vpWorld{samePrefix: vpBool("samePrefix"), zeroFirst: vpBool("firstPrefixZero")}
+	w.prepareGenesis()
 	params := vpParams()
-	w := &vpWorld{samePrefix: vpBool("samePrefix")}
 	bs := vpOpenBlockStore(db, params)
 	if bs == nil {
 		return
 	}
 	blocks := []wire.BlockHeader{vpGenesisHeader()}
-	w.admit(blocks[0].BlockHash())
 	nb := vpParam("blocks", 3)
 	var batch []BlockHeader
 	prev := blocks[0].BlockHash()
